@@ -41,7 +41,11 @@ class FakeCon(object):
 class FakeNexus(object):
   def __init__(self, cons):
     self.cons = cons
-    self.connections = cons
+
+  @property
+  def connections(self):
+    from pox.openflow import ConnectionDict
+    return ConnectionDict(self.cons)
 
   def getConnection(self, dpid):
     return self.cons.get(dpid)
@@ -134,16 +138,26 @@ def check_tree(links, n):
 def check_flood(links, n, part="main"):
   """part 'main': every clause, with the one-way-link ports of switches that have no bidirectional link taken as the
   property wants them (flooding off);  part 'oneway': exactly that remaining clause - those ports have flooding off"""
-  import pox.openflow.libopenflow_01 as of
   stm, disc, cons = setup(links, n)
   stm._update_tree()
-  L = set(links)
-  # resulting flood flags: default enabled, changed by the port-mods sent
+  return judge_flood(stm, cons, links, part)
+
+
+def flood_flags(cons):
+  """resulting flood flags: default enabled, changed by the port-mods sent so far (in order)"""
+  import pox.openflow.libopenflow_01 as of
   flood = dict(((s, p), True) for s, c in cons.items() for p in c.ports)
   for s, c in cons.items():
     for m in c.sent:
       if isinstance(m, of.ofp_port_mod) and m.mask & of.OFPPC_NO_FLOOD:
         flood[(s, m.port_no)] = not (m.config & of.OFPPC_NO_FLOOD)
+  return flood
+
+
+def judge_flood(stm, cons, links, part="main"):
+  """the oracle: links = the directed links of the adjacency as it is NOW"""
+  L = set(links)
+  flood = flood_flags(cons)
   tree = stm._calc_spanning_tree()
   tree_ports = set((v, p) for v, nbrs in tree.items() for (w, p) in nbrs)
   linked = set((s1, p1) for (s1, p1, s2, p2) in L) | set((s2, p2) for (s1, p1, s2, p2) in L)
@@ -247,6 +261,97 @@ def flooding_follows_the_tree(tier, seed):
 
 class FakeEvent(object):
   pass
+
+
+def check_history(links, n, removal, how):
+  """links are DISCOVERED one by one through the real packet-in handler of a real Discovery object whose LinkEvents reach the
+  real spanning_tree._handle_LinkEvent through the real event machinery; then `removal` (a list of directed links) is
+  withdrawn - how = 'expire': they time out in one sweep of the real _expire_links under a virtual clock; how = ('down', sw): the
+  switch sw disconnects (real _handle_openflow_ConnectionDown; removal = all its links).  After EVERY change the
+  flood flags on the switches must satisfy the oracle for the adjacency as it is then."""
+  import pox.openflow.discovery as dm
+  import pox.lib.packet as pkt
+  from pox.lib.addresses import EthAddr
+  stm, disc, cons = setup(links, n)
+  disc.adjacency = {}
+  disc._eat_early_packets = False
+  disc._explicit_drop = False
+  disc._link_timeout = 10
+  dm.core = stm.core
+  disc.addListenerByName("LinkEvent", stm._handle_LinkEvent)
+  import time as _t
+  try:
+    dm.time.time = lambda: 100.0
+    for i, (s1, p1, s2, p2) in enumerate(links):
+      ev = FakeEvent()
+      ev.parsed = pkt.ethernet(dm.LLDPSender._create_discovery_packet(s1, p1, EthAddr(b"\x02\x00\x00\x00\x00\x01"), 120).pack())
+      ev.dpid, ev.port, ev.connection, ev.ofp = s2, p2, None, None
+      disc._handle_openflow_PacketIn(ev)
+      if sorted(map(tuple, disc.adjacency)) != sorted(links[:i + 1]):
+        return "after discovering %s the adjacency is %s" % (links[:i + 1], sorted(map(tuple, disc.adjacency)))
+      r = judge_flood(stm, cons, links[:i + 1])
+      if r:
+        return "after link %s.%s->%s.%s was discovered (links so far %s): %s" % (s1, p1, s2, p2, links[:i + 1], r)
+    if not removal:
+      return None
+    rest = [l for l in links if l not in removal]
+    if how == "expire":
+      for l in removal:
+        disc.adjacency[dm.Discovery.Link(*l)] = 80.0      # last seen 20 s ago, timeout 10 s
+      disc._expire_links()
+    else:
+      sw = how[1]
+      how = "down"
+      down = FakeEvent()
+      down.dpid = sw
+      # the nexus no longer knows the connection when the event is raised
+      gone = cons.pop(sw)
+      disc._handle_openflow_ConnectionDown(down)
+    if sorted(map(tuple, disc.adjacency)) != sorted(rest):
+      return "after withdrawing %s the adjacency is %s, expected %s" % (removal, sorted(map(tuple, disc.adjacency)), sorted(rest))
+    r = judge_flood(stm, cons, rest)
+    if r:
+      return "after %s of %s (links left %s): %s" % ("the expiry" if how == "expire" else "the disconnect of the switch", removal, rest, r)
+    return None
+  finally:
+    dm.time.time = _t.time
+
+
+def histories(tier, seed):
+  rng = random.Random(seed + 1)
+  k = 0
+  for (n, links) in graphs(tier, seed):
+    k += 1
+    if tier == "quick" and k % 5:
+      continue
+    if not links:
+      continue
+    links = list(links)
+    rng.shuffle(links)
+    L = set(links)
+    yield (n, links, [], "expire")
+    # one directed link times out; a link and its reverse time out in the same sweep; a switch disconnects
+    one = links[rng.randrange(len(links))]
+    yield (n, links, [one], "expire")
+    twins = [l for l in links if (l[2], l[3], l[0], l[1]) in L]
+    if twins:
+      t = twins[rng.randrange(len(twins))]
+      yield (n, links, [t, (t[2], t[3], t[0], t[1])], "expire")
+    sw = rng.randint(1, n)
+    mine = [l for l in links if l[0] == sw or l[2] == sw]
+    if mine:
+      yield (n, links, mine, ("down", sw))
+
+
+@standin(P, bound="a fifth (quick) / all of the graphs above, links discovered one by one in a random order through the real packet-in "
+                  "handler, then one withdrawal per history: one directed link expires / a link and its reverse expire in the same "
+                  "sweep / a switch disconnects; the oracle is applied after every single change",
+         target="pox.openflow.discovery:Discovery._handle_openflow_PacketIn / _expire_links / _delete_links / "
+                "_handle_openflow_ConnectionDown + pox.openflow.spanning_tree:_handle_LinkEvent / _update_tree", timeout_s=280)
+def flooding_follows_every_change_of_the_adjacency(tier, seed):
+  for i, (n, links, removal, how) in enumerate(histories(tier, seed)):
+    yield ("history %d n=%d discover %s then %s %s" % (i, n, links, how, removal),
+           lambda n=n, links=links, removal=removal, how=how: check_history(links, n, removal, how))
 
 
 def check_probe(dpid, port, rx_dpid, rx_port):
